@@ -8,7 +8,7 @@
 //!
 //!   score1 [k kind…] min_ion_index bucket [p pep…]  tol(fragment) tol(precursor) opt(max_fragment_charge)
 //!          min_isotope_err max_isotope_err openms annotate min_matched_peaks
-//!          u32(precursor m/z) opt(precursor_charge) min_precursor_charge max_precursor_charge
+//!          u32(precursor m/z) charge(0 | 1 z | 2 z = annotated + override_precursor_charge) min_precursor_charge max_precursor_charge
 //!          u32(total_ion_current) [n peak…]
 //!      ->  [f feature…] sorted by (peptide index, charge, isotope error)  |  panic
 //!   feature := pep_ix u32(isotope_error) peptide_len charge u32(expmass) u32(calcmass) u32(delta_mass)
@@ -35,7 +35,7 @@ pub const INFO: Info = Info {
     rule: "score1: a database of 1-3 synthetic peptides (length 2..24 over VALID_AA, optional residue / terminal \
            modifications, consistent mass, ascending mass), ion kinds mostly [b,y] but also single-sided, c/z, a/x, \
            several kinds per terminus and all six; min_ion_index 0..3; fragment tolerance ppm or Da (symmetric and \
-           asymmetric); precursor charge 1..4 (annotated in 80% of the cases; otherwise None and the scorer assumes each charge of (2,4), (1,3), (2,2) or the empty range (3,2)), max_fragment_charge None/1/2/3; isotope error ranges (0,0), (-1,3), \
+           asymmetric); precursor charge 1..4 (annotated in 80% of the cases; otherwise None and the scorer assumes each charge of (2,4), (1,3), (2,2) or the empty range (3,2); a quarter of the annotated cases set override_precursor_charge so the annotated charge differs from the searched ones), max_fragment_charge None/1/2/3; isotope error ranges (0,0), (-1,3), \
            (0,1), (1,1), (-1,0); precursor tolerance wide (all peptides and isotopes are candidates) or narrow \
            (the target and its isotope only); both score types; annotate on/off. The spectrum is synthesised from \
            one peptide's own ladder (computed with IonSeries for ALL six kinds so unconfigured kinds act as decoys): \
@@ -44,7 +44,7 @@ pub const INFO: Info = Info {
            1..3 or at all charges, the peak displaced by a fraction of the tolerance in {0, +-0.5, +-0.9, +-0.999, \
            +-1.001, +-1.1, +-2} or by +-1..3 ulp around the exact window edge; 25% of the windows get 2-3 peaks \
            (equal intensities = ties, or distinct); intensities from {0, 1, 2.5, 10, 100, random}; random noise \
-           peaks; directed: empty spectrum, a dense spectrum (peak every ~0.37 Da), the complete PEPTIDEK ladder \
+           peaks; directed: searched-vs-annotated charge (override with ranges containing / not containing the annotation, un-annotated 1..4, wide precursor tolerance so every searched charge reports its own PSM), empty spectrum, a dense spectrum (peak every ~0.37 Da), the complete PEPTIDEK ladder \
            (the repaired index-0 finding), TIC = sum / arbitrary / 0. A separate stream tagged neg-intensity feeds \
            negative and NaN intensities (outside the property: compared with the model only). \
            c04select: sorted peak lists of 0..14 peaks on a coarse mass grid (many ties in mass and intensity), \
@@ -193,6 +193,8 @@ struct Req {
     z: u8,
     /// false: `Precursor::charge = None`, the scorer tries `pc_range.0..=pc_range.1`
     annotated: bool,
+    /// `override_precursor_charge`: the annotation is ignored, `pc_range` is searched
+    override_z: bool,
     pc_range: (u8, u8),
     tic: f32,
     peaks: Vec<(f32, f32)>, // (mass, intensity)
@@ -222,7 +224,7 @@ impl Req {
         o.n(self.iso.0).n(self.iso.1).b(self.openms).b(self.annotate).n(self.min_matched);
         o.f32(self.prec_mz);
         if self.annotated {
-            o.n(1).n(self.z);
+            o.n(if self.override_z { 2 } else { 1 }).n(self.z);
         } else {
             o.n(0);
         }
@@ -516,8 +518,15 @@ fn random_case(rng: &mut Rng, negative: bool) -> Built {
     if !annotated {
         tags.push("unannotated-charge");
     }
+    // annotated charge, but override_precursor_charge: the searched charges are pc_range (the annotation may or
+    // may not be among them); every searched charge that yields a hit is reported with ITS OWN expmass
+    let override_z = annotated && rng.chance(1, 4);
+    if override_z {
+        tags.push("override-charge");
+    }
     let req = Req {
         annotated,
+        override_z,
         pc_range,
         kinds,
         min_ion_index,
@@ -567,6 +576,7 @@ fn full_ladder_case(seq: &[u8], kinds: &[usize], keep: &dyn Fn(usize, usize) -> 
         min_matched: 0,
         z: 2,
         annotated: true,
+        override_z: false,
         pc_range: (2, 4),
         tic,
         peaks,
@@ -753,6 +763,30 @@ pub fn gen(rng: &mut Rng, tier: Tier, emit: &mut dyn FnMut(Case)) {
         }
     }
 
+    // searched charge vs annotated charge: wide precursor tolerance so that EVERY searched charge yields a PSM of the
+    // same peptide; each must carry expmass = (mz - PROTON) * its own charge, delta_mass and fragment charge limit
+    // of its own charge. (annotated 2, override, ranges containing / not containing the annotation; un-annotated)
+    for (annotated, override_z, z, pc) in [
+        (true, true, 2u8, (2u8, 4u8)),
+        (true, true, 2, (1, 3)),
+        (true, true, 2, (3, 4)),
+        (true, true, 4, (1, 2)),
+        (true, false, 3, (1, 4)),
+        (false, false, 2, (1, 4)),
+        (false, false, 2, (2, 3)),
+    ] {
+        for iso in [(0i8, 0i8), (-1, 1)] {
+            let mut r = full_ladder_case(b"PEPTIDEKR", &[1, 4], &|_, j| j != 2, true);
+            r.ptol = Tol::Da(-6000.0, 6000.0);
+            r.annotated = annotated;
+            r.override_z = override_z;
+            r.z = z;
+            r.pc_range = pc;
+            r.iso = iso;
+            emit_req(emit, &r, &["directed", "searched-vs-annotated-charge"], true);
+        }
+    }
+
     // ---- exhaustive small scope: every matched-index pattern of both ladders of one peptide ----
     // (quick: 5 residues = 4 ions per series, 256 patterns; thorough: 7 residues = 6 ions per series, 4096 patterns)
     {
@@ -819,7 +853,12 @@ pub fn exec(op: &str, t: &mut Toks) -> Option<String> {
             let annotate = t.bool()?;
             let min_matched = t.usize()? as u16;
             let prec_mz = t.f32()?;
-            let z = t.opt(|t| t.usize())?.map(|z| z as u8);
+            let tag = t.usize()?;
+            if tag > 2 {
+                return None;
+            }
+            let z = if tag == 0 { None } else { Some(t.usize()? as u8) };
+            let override_z = tag == 2;
             let min_pc = t.usize()? as u8;
             let max_pc = t.usize()? as u8;
             let tic = t.f32()?;
@@ -859,7 +898,7 @@ pub fn exec(op: &str, t: &mut Toks) -> Option<String> {
                 max_isotope_err: iso_hi,
                 min_precursor_charge: min_pc,
                 max_precursor_charge: max_pc,
-                override_precursor_charge: false,
+                override_precursor_charge: override_z,
                 max_fragment_charge: mfc,
                 chimera: false,
                 report_psms: 1000,
